@@ -165,6 +165,29 @@ def one_connection(obs, case, rand16, tag):
     kw = {k: v for k, v in opts.items() if v is not None and k not in ("via",)}
     if isinstance(kw.get("header"), dict):
         kw["header"] = dict(opts["header"])
+        if case.get("strsub"):
+            # values that are str subclasses whose text form differs from their content (a str-based Enum member, a
+            # secret that masks itself when printed): the header carries the string itself, like every str operation does
+            import enum
+
+            class Masked(str):
+                def __str__(self):
+                    return "********"
+
+                def __repr__(self):
+                    return "Masked(...)"
+
+                def __format__(self, spec):
+                    return "********"
+
+            def wrap(i, v):
+                if v is None:
+                    return None
+                if i % 2:
+                    return Masked(v)
+                return enum.Enum("Opt", {"MEMBER": v}, type=str).MEMBER
+
+            kw["header"] = {k: wrap(i, v) for i, (k, v) in enumerate(kw["header"].items())}
     pre = None
     if opts.get("via") == "socket":
         pre = simnet.NetSock(net, 2, 1, 0)
@@ -229,7 +252,7 @@ def run_case(case):
     nt = bool(flags) or parts.get("port") is not None or parts["hostkind"] == "v6" or parts.get("query") or ";" in parts["path"]
     obs.cls = (case["api"], parts["scheme"], f"host:{parts['hostkind']}", f"via:{opts.get('via', 'net')}") + tuple(f"opt:{f}" for f in flags) + (
         f"port:{'none' if parts.get('port') is None else ('80/443' if parts['port'] in (80, 443) else 'other')}",
-        f"params:{int(';' in parts['path'])}", f"query:{int(bool(parts.get('query')))}")
+        f"params:{int(';' in parts['path'])}", f"query:{int(bool(parts.get('query')))}", f"str-subclass-values:{int(bool(case.get('strsub')))}")
     obs.nt = (urlgen.build_url(parts), repr(sorted((k, repr(v)) for k, v in opts.items())), case["api"]) if nt else None
     return obs
 
@@ -272,7 +295,7 @@ def cases(draw):
     api = draw(st.sampled_from(["connect", "create_connection", "app"]))
     if api == "app":
         o.pop("connection", None)  # WebSocketApp has no such option
-    return {"api": api, "url": parts, "opts": o, "header_callable": api == "app" and draw(st.booleans()),
+    return {"api": api, "url": parts, "opts": o, "header_callable": api == "app" and draw(st.booleans()), "strsub": isinstance(o.get("header"), dict) and draw(st.booleans()),
             "rand": [draw(st.binary(min_size=16, max_size=16)), draw(st.binary(min_size=16, max_size=16))]}
 
 
